@@ -91,7 +91,7 @@ func init() {
 }
 
 func runC10(c *mon.Ctx) {
-	c.Each("files", c.N(200, 2000), func(i int64, r *mon.Rand) {
+	c.Each("files", c.N(200, 20_000), func(i int64, r *mon.Rand) {
 		a := buildHistory(r, 1<<32-1, false)
 		var ref bytes.Buffer
 		n0, err := a.s.WriteTo(&ref)
@@ -181,7 +181,7 @@ func runC10(c *mon.Ctx) {
 	})
 
 	// ---- real files: WriteFile under RLIMIT_FSIZE at every byte offset
-	c.Each("writefile", c.N(24, 300), func(i int64, r *mon.Rand) {
+	c.Each("writefile", c.N(24, 2000), func(i int64, r *mon.Rand) {
 		a := buildHistory(r, 1<<32-1, false)
 		var ref bytes.Buffer
 		if _, err := a.s.WriteTo(&ref); err != nil {
